@@ -576,3 +576,123 @@ func TestC02RealBackoff(t *testing.T) {
 		},
 		Check: checkBackoff})
 }
+
+// ---------------------------------------------------------------- C10: give up, relaunch, give up again (real probes, real time)
+
+// GiveUpCase: a real process whose readiness probe (an exec probe reading a flag file) fails all the
+// time; the unhooked runner with the real prober must stop and relaunch it once per
+// failure_threshold consecutive failures, again and again.
+type GiveUpCase struct {
+	Threshold int    `json:"threshold"`  // 1..2
+	Policy    string `json:"policy"`     // always | on_failure
+	Cycles    int    `json:"cycles"`     // give-ups to wait for (2..3)
+	HealFirst bool   `json:"heal_first"` // the probe succeeds once before it starts failing
+}
+
+func checkGiveUp(c GiveUpCase) pbt.Verdict {
+	var v pbt.Verdict
+	dir, err := os.MkdirTemp("", "verif-gu-")
+	if err != nil {
+		v.Skip = true
+		return v
+	}
+	defer os.RemoveAll(dir)
+	flag := filepath.Join(dir, "healthy")
+	if c.HealFirst {
+		_ = os.WriteFile(flag, []byte("1"), 0o644)
+	}
+	starts := filepath.Join(dir, "starts")
+	y := fmt.Sprintf(`version: "0.5"
+processes:
+  svc:
+    command: 'echo s >> %s; exec sleep 600'
+    availability:
+      restart: %s
+      backoff_seconds: 1
+    readiness_probe:
+      exec:
+        command: 'test -f %s'
+      period_seconds: 1
+      timeout_seconds: 1
+      failure_threshold: %d
+`, starts, c.Policy, flag, c.Threshold)
+	cfg := filepath.Join(dir, "pc.yaml")
+	_ = os.WriteFile(cfg, []byte(y), 0o644)
+	lo := &loader.LoaderOptions{FileNames: []string{cfg}, IsInternalLoader: true}
+	lo.DisableDotenv(true)
+	prj, err := loader.Load(lo)
+	if err != nil {
+		v.Violations = append(v.Violations, "load: "+err.Error())
+		return v
+	}
+	r, err := app.NewProjectRunner((&app.ProjectOpts{}).WithProject(prj).WithIsTuiOn(true))
+	if err != nil {
+		v.Violations = append(v.Violations, "runner: "+err.Error())
+		return v
+	}
+	done := make(chan error, 1)
+	go func() { done <- r.Run() }()
+	defer func() {
+		sd := make(chan struct{})
+		go func() { _ = r.ShutDownProject(); close(sd) }()
+		select {
+		case <-sd:
+		case <-time.After(15 * time.Second):
+		}
+		select {
+		case <-done:
+		case <-time.After(5 * time.Second):
+		}
+	}()
+	launches := func() int {
+		b, _ := os.ReadFile(starts)
+		return len(strings.Fields(string(b)))
+	}
+	if c.HealFirst {
+		// wait until it is reported Ready, then let the probe fail from now on
+		ok := false
+		for i := 0; i < 80; i++ {
+			if st, err := r.GetProcessState("svc"); err == nil && st.Health == "Ready" {
+				ok = true
+				break
+			}
+			time.Sleep(100 * time.Millisecond)
+		}
+		if !ok {
+			v.Skip = true // too slow: inconclusive
+			return v
+		}
+		_ = os.Remove(flag)
+	}
+	// every give-up takes threshold probe periods plus the stop, the back-off and the relaunch
+	perCycle := time.Duration(c.Threshold+4) * time.Second
+	deadline := time.Now().Add(time.Duration(c.Cycles)*perCycle + 12*time.Second)
+	for time.Now().Before(deadline) {
+		if launches() >= c.Cycles+1 {
+			break
+		}
+		time.Sleep(200 * time.Millisecond)
+	}
+	n := launches()
+	st, _ := r.GetProcessState("svc")
+	if n < c.Cycles+1 {
+		status, health, restarts := "?", "?", -1
+		if st != nil {
+			status, health, restarts = st.Status, st.Health, st.Restarts
+		}
+		v.Violations = append(v.Violations, fmt.Sprintf("readiness probe fails all the time (threshold %d, period 1 s, policy %s): after %v the command was launched %d times, want at least %d (one relaunch per give-up); status %s, health %s, restarts %d",
+			c.Threshold, c.Policy, time.Duration(c.Cycles)*perCycle+12*time.Second, n, c.Cycles+1, status, health, restarts))
+		return v
+	}
+	v.NonTrivial = true
+	v.Labels = append(v.Labels, fmt.Sprintf("cycles:%d", c.Cycles))
+	return v
+}
+
+func TestC10RealGiveUp(t *testing.T) {
+	pbt.Run(t, pbt.Spec[GiveUpCase]{Prop: "C10", Test: "TestC10RealGiveUp", Engine: "osproc",
+		Gen: func(t *rapid.T) GiveUpCase {
+			return GiveUpCase{Threshold: pbt.Range(t, 1, 2), Policy: pbt.Pick(t, []string{"always", "on_failure"}), Cycles: pbt.Range(t, 2, 3), HealFirst: pbt.Pct(t, 40)}
+		},
+		Check: checkGiveUp})
+}
